@@ -298,6 +298,29 @@ func Main(t *testing.T, property string, body func(c *Ctx)) {
 	}
 }
 
+// Abort writes the partial result as it stands (marked non-exhaustive) and ends the
+// process. Used when an execution has wedged the process in a way the check has already
+// recorded as a violation (e.g. leaked library goroutines keep a synctest bubble from
+// ending), so the remaining cases of this shard cannot be explored.
+func (c *Ctx) Abort(why string) {
+	c.mu.Lock()
+	c.cut = true
+	if c.p.Extra == nil {
+		c.p.Extra = map[string]any{}
+	}
+	c.p.Extra["aborted"] = why
+	c.p.Exhaustive = false
+	c.p.WallS = time.Since(c.start).Seconds()
+	b, _ := json.Marshal(&c.p)
+	c.mu.Unlock()
+	if out := os.Getenv("VERIF_OUT"); out != "" {
+		_ = os.WriteFile(out, b, 0o644)
+	} else {
+		fmt.Fprintf(os.Stderr, "aborted: %s\npartial: %s\n", why, trunc(string(b), 4000))
+	}
+	os.Exit(0)
+}
+
 func trunc(s string, n int) string {
 	if len(s) > n {
 		return s[:n] + "..."
